@@ -406,6 +406,22 @@ func (c *checker) endToEnd() {
 		}(i)
 	}
 	wg.Wait()
+	// synchronized bursts: 32 clients with different hellos start connecting at the same instant, so that
+	// their handshakes complete (and their connections are set up) together
+	for b := 0; b < run.Pick(24, 150); b++ {
+		gate := make(chan struct{})
+		for k := 0; k < 32; k++ {
+			wg.Add(1)
+			go func(i int) {
+				defer wg.Done()
+				<-gate
+				c.oneConn(i, be, pa, false)
+			}(n + b*32 + k)
+		}
+		close(gate)
+		wg.Wait()
+		run.Add("e2e_synchronized_bursts", 1)
+	}
 }
 
 func (c *checker) oneConn(i int, be *rig.Backend, px *rig.Proxy, custom bool) {
